@@ -128,6 +128,20 @@ def _generate_model_code(
         for var_name, factor in rxn.stoichiometry.items():
             diff_eqs.setdefault(var_name, {})[rxn_name] = factor
 
+    # The derivative of a variable x is written as d<x>dt. A component with that name
+    # would be assigned twice, one value silently replacing the other
+    component_names = {
+        "time",
+        *variables,
+        *cache.all_parameter_values,
+        *all_derived,
+        *all_reactions,
+    }
+    for variable in variables:
+        if f"d{variable}dt" in component_names:
+            msg = f"Unable to write the derivative of '{variable}': a component is called 'd{variable}dt'"
+            raise ValueError(msg)
+
     for variable, stoich in diff_eqs.items():
         expr = stoichiometries_to_sympy(origin=variable, stoichs=stoich)
         source.append(
